@@ -121,4 +121,5 @@ theorem filter_not_contains_nil {β : Type} (f : β → String) (l : List β) :
     l.filter (fun s => !([] : List String).contains (f s)) = l := by
   simp
 
+
 end Banyan.C13
